@@ -62,7 +62,7 @@ func runC04(c *Ctx) {
 	p := c.P
 	c.Rule("HIERARCHY", "each rule of a laxer breaking category is in the stricter category or all its documented implicants are", 150)
 	c.Rule("GROUPS-NEST", "fields in one WIRE_JSON compatibility group are in one WIRE compatibility group", 1)
-	c.Rule("EXEMPTION-WEAKENS", "reservation exemptions fold to 'not allowed' when both flags are false; flag tuples match the rule IDs", 8)
+	c.Rule("EXEMPTION-WEAKENS", "reservation exemptions fold to 'not allowed' when both flags are false; flag tuples match the rule IDs", 3)
 	c.Rule("PREVIOUS-DRIVEN", "pair adapters drive their loops from previous indexes: elements absent from the previous image are never visited", 6)
 	t := extractCheckTables(p)
 	chain := []string{"FILE", "PACKAGE", "WIRE_JSON", "WIRE"}
